@@ -2,6 +2,8 @@
 import os
 import re
 
+import gentie
+
 from vgen import *
 
 BIN = 'c11'
@@ -280,6 +282,19 @@ def threshold(body):
 
 
 def translate(repo, lean):
+    info = translate_thresholds(repo, lean)
+    # word helpers (carrying_mul_add, carrying_double_mul_add, carrying_add, borrowing_sub) regenerated from the
+    # source; Props/C11.word_primitives_match_source proves the model's primitives equal to them
+    try:
+        w = gentie.gen_words(repo, lean)
+        info['words'] = w
+        info['changed'] = bool(info.get('changed')) or bool(w.get('changed'))
+    except Exception as e:  # translator could not parse the (reorganised) source: tie unavailable, not a violation
+        info['words_unavailable'] = repr(e)
+    return info
+
+
+def translate_thresholds(repo, lean):
     path = os.path.join(repo, 'src', 'algorithms', 'mul_redc.rs')
     out = os.path.join(lean, 'Ruint', 'Gen', 'RedcConsts.lean')
     info = {'changed': False, 'obligations': [], 'source': 'src/algorithms/mul_redc.rs'}
